@@ -55,7 +55,7 @@ fn c15_alphabet(cfg: &NodeCfg) -> Vec<Op> {
 
 fn c16_alphabet(cfg: &NodeCfg) -> Vec<Op> {
     let mut a = vec![Op::Send(1), Op::Send(3), Op::Send2(2), Op::Flush, Op::BgSave, Op::Restart];
-    if !cfg.dedup && cfg.expiry_us == 0 {
+    if !cfg.dedup && cfg.expiry_us == 0 && cfg.max_topic_size == 0 {
         // a partition / a topic with several segments that comes and goes: every figure must be back where it was
         a.push(Op::PartitionComesAndGoes);
         a.push(Op::TopicComesAndGoes);
@@ -68,6 +68,10 @@ fn c16_alphabet(cfg: &NodeCfg) -> Vec<Op> {
     }
     if cfg.expiry_us > 0 {
         a.push(Op::Advance(cfg.expiry_us + 1));
+        a.push(Op::Maintain);
+    }
+    if cfg.max_topic_size > 0 && cfg.delete_oldest {
+        // size-based clean-up: the figures must follow what a pass removes
         a.push(Op::Maintain);
     }
     a
@@ -181,6 +185,8 @@ pub fn plan(prop: &str, tier: &str) -> (PropMeta, Vec<Job>) {
             };
             for nowait in [false, true] {
                 cfgs.push(NodeCfg { threshold: 2, seg_size: SEG_SMALL, nowait, expiry_us: EXP, ..Default::default() });
+                // a size limit of two segments with deletion of the oldest segments enabled
+                cfgs.push(NodeCfg { threshold: 2, seg_size: SEG_SMALL, nowait, max_topic_size: 2 * SEG_SMALL, delete_oldest: true, ..Default::default() });
             }
             ("C16", cfgs, if quick { 4 } else { 5 }, c16_alphabet)
         }
@@ -642,7 +648,7 @@ struct Figures {
 impl C16 {
     fn new(cfg: &NodeCfg) -> Self {
         let mut a = LogModel::new(cfg.dedup);
-        a.retention_seen = cfg.expiry_us > 0;
+        a.retention_seen = cfg.expiry_us > 0 || (cfg.max_topic_size > 0 && cfg.delete_oldest);
         let b = a.clone();
         C16 { m: [a, b], prev: None }
     }
@@ -672,8 +678,8 @@ impl Oracle for C16 {
             (Op::Purge, StepOut::Done(Ok(()))) => {
                 self.m[0].purge();
                 self.m[1].purge();
-                self.m[0].retention_seen = w.cfg.expiry_us > 0;
-                self.m[1].retention_seen = w.cfg.expiry_us > 0;
+                self.m[0].retention_seen = w.cfg.expiry_us > 0 || (w.cfg.max_topic_size > 0 && w.cfg.delete_oldest);
+                self.m[1].retention_seen = w.cfg.expiry_us > 0 || (w.cfg.max_topic_size > 0 && w.cfg.delete_oldest);
             }
             _ => model_step(w, &mut self.m[0], op, out, ctx)?,
         }
